@@ -181,12 +181,13 @@ func (a *Affiliation) computeTriggersForCastingSites(pass *analysishelper.Enhanc
 				case *ast.ReturnStmt:
 					// function signature states interface return, but the actual return is a struct
 					// e.g., m(x *A) I { return x }
-					var results = f.Type.Results
-					if results != nil {
-						funcSigResultsList := results.List
+					// The result types are taken from the signature, not from the fields of the AST
+					// result list: a field may declare several results, e.g., `(a, b I)`.
+					if funcObj, ok := pass.TypesInfo.ObjectOf(f.Name).(*types.Func); ok {
+						results := funcObj.Type().(*types.Signature).Results()
 						for i := range node.Results {
-							if i < len(funcSigResultsList) {
-								lhsType := pass.TypesInfo.TypeOf(funcSigResultsList[i].Type)
+							if i < results.Len() {
+								lhsType := results.At(i).Type()
 								rhsType := pass.TypesInfo.TypeOf(node.Results[i])
 								appendTypeToTypeTriggers(lhsType, rhsType)
 							}
